@@ -5,11 +5,12 @@ use std::collections::HashMap;
 fn opcode(name: &str) -> Option<u8> {
     let table: &[(&str, u8)] = &[
         ("STOP", 0x00), ("ADD", 0x01), ("MUL", 0x02), ("SUB", 0x03), ("DIV", 0x04), ("LT", 0x10), ("GT", 0x11),
-        ("EQ", 0x14), ("ISZERO", 0x15), ("AND", 0x16), ("OR", 0x17), ("SHL", 0x1b), ("SHR", 0x1c),
+        ("MOD", 0x06), ("EQ", 0x14), ("ISZERO", 0x15), ("AND", 0x16), ("OR", 0x17), ("SHL", 0x1b), ("SHR", 0x1c),
         ("ADDRESS", 0x30), ("ORIGIN", 0x32), ("CALLER", 0x33), ("CALLDATALOAD", 0x35), ("CALLDATASIZE", 0x36),
         ("CALLDATACOPY", 0x37), ("CODECOPY", 0x39), ("GASPRICE", 0x3a), ("RETURNDATASIZE", 0x3d),
         ("RETURNDATACOPY", 0x3e), ("BLOCKHASH", 0x40), ("COINBASE", 0x41), ("TIMESTAMP", 0x42), ("NUMBER", 0x43),
         ("PREVRANDAO", 0x44), ("GASLIMIT", 0x45), ("CHAINID", 0x46), ("SELFBALANCE", 0x47), ("BASEFEE", 0x48),
+        ("BLOBBASEFEE", 0x4a), ("CALLVALUE", 0x34),
         ("POP", 0x50), ("MLOAD", 0x51), ("MSTORE", 0x52), ("SLOAD", 0x54), ("SSTORE", 0x55), ("JUMP", 0x56),
         ("JUMPI", 0x57), ("GAS", 0x5a), ("JUMPDEST", 0x5b), ("PUSH0", 0x5f), ("LOG0", 0xa0), ("LOG1", 0xa1),
         ("LOG2", 0xa2), ("LOG3", 0xa3), ("LOG4", 0xa4), ("CREATE", 0xf0), ("CALL", 0xf1), ("RETURN", 0xf3),
@@ -136,6 +137,8 @@ fn b(d: u32, k: u32) -> String {
 ///   0a            INVALID opcode (halt, consumes all gas)
 ///   0b a20 n <n bytes> CALL the 20-byte address with those bytes (result ignored)
 ///   0c s          SSTORE s := NUMBER (the block number the code observes)
+///   0d k s        SSTORE s := ENV_k mod 999983, k = 1 GASLIMIT 2 COINBASE 3 BASEFEE 4 GASPRICE 5 BLOBBASEFEE 6 SELFBALANCE
+///                 7 CALLVALUE 8 CHAINID (block/transaction environment that is fixed by the protocol)
 ///   10..14 t..    LOG0..LOG4 with 1-byte topics, no data
 ///   anything else STOP
 pub fn cell_runtime() -> Vec<u8> {
@@ -157,6 +160,7 @@ cont:
   DUP1 #10 EQ @op_invalid JUMPI
   DUP1 #11 EQ @op_callext JUMPI
   DUP1 #12 EQ @op_number JUMPI
+  DUP1 #13 EQ @op_env JUMPI
   DUP1 #0x10 EQ @op_log0 JUMPI
   DUP1 #0x11 EQ @op_log1 JUMPI
   DUP1 #0x12 EQ @op_log2 JUMPI
@@ -184,6 +188,35 @@ op_ret:
   POP {b11} SLOAD #0 MSTORE #32 #0 RETURN
 op_number:
   POP NUMBER {b21} SSTORE #2 ADD @loop JUMP
+op_env:
+  POP {b11}
+  DUP1 #1 EQ @e1 JUMPI
+  DUP1 #2 EQ @e2 JUMPI
+  DUP1 #3 EQ @e3 JUMPI
+  DUP1 #4 EQ @e4 JUMPI
+  DUP1 #5 EQ @e5 JUMPI
+  DUP1 #6 EQ @e6 JUMPI
+  DUP1 #7 EQ @e7 JUMPI
+  DUP1 #8 EQ @e8 JUMPI
+  POP #0 @estore JUMP
+e1:
+  POP GASLIMIT @estore JUMP
+e2:
+  POP COINBASE @estore JUMP
+e3:
+  POP BASEFEE @estore JUMP
+e4:
+  POP GASPRICE @estore JUMP
+e5:
+  POP BLOBBASEFEE @estore JUMP
+e6:
+  POP SELFBALANCE @estore JUMP
+e7:
+  POP CALLVALUE @estore JUMP
+e8:
+  POP CHAINID @estore JUMP
+estore:
+  #999983 SWAP1 MOD {b22} SSTORE #3 ADD @loop JUMP
 op_selfdestruct:
   ADDRESS SELFDESTRUCT
 op_invalid:
@@ -285,6 +318,7 @@ pub fn encode_ops(ops: &serde_json::Value) -> Vec<u8> {
             }
             "invalid" => out.push(10),
             "number" => out.extend_from_slice(&[12, byte("s")]),
+            "env" => out.extend_from_slice(&[13, byte("k"), byte("s")]),
             "log" => {
                 let topics = op["t"].as_array().cloned().unwrap_or_default();
                 out.push(0x10 + topics.len() as u8);
@@ -293,6 +327,11 @@ pub fn encode_ops(ops: &serde_json::Value) -> Vec<u8> {
                 }
             }
             "stop" => out.push(0),
+            // STOP followed by n bytes the interpreter never reads: long calldata that costs intrinsic gas only
+            "pad" => {
+                out.push(0);
+                out.extend(std::iter::repeat(byte("b")).take(op["n"].as_u64().unwrap_or(0) as usize));
+            }
             _ => out.push(0),
         }
     }
